@@ -1,4 +1,5 @@
 import RsModel.Lemmas.CombModes
+import RsModel.Lemmas.ModeLeaves
 /-!
 # C09: composed chunks, for the whole stream, in terms of the inner map
 
@@ -190,5 +191,356 @@ theorem combEnd_rec (cfg : CombCfg) (hI : MapIdxOK cfg.innerMap) : ∀ (evs : Li
           exact hst.2.2.2.2.2
         rw [hsrc] at h3
         exact ⟨k, c', List.mem_cons_of_mem _ h1, h3⟩
+
+/-! ### the search in terms of the inner map -/
+
+/-- when the recorded line data is what the inner map's stream delivered: at the position of a character of the inner text the search
+finds the recorded form of a mapping carrying exactly what the inner map assigns there, and a mapped segment only then -/
+theorem findInner_innerMap (st : CombSt) (Tin : Text) (Min : SMap) (ha : IsAscii Tin) (hl : Tin.length ≤ USIZE_MAX)
+    (hs : sortedFrom 1 0 (decode Min.mappings))
+    (hsegok : ∀ x ∈ decode Min.mappings, SegOK (splitLines Tin) (adv startPos Tin).line (adv startPos Tin).col x)
+    (hrec : ∀ L, 1 ≤ L → segsAt st.lineData L = ((chunkMs (streamSM Tin Min ⟨true, false⟩).evs).filter fun x => x.gl == L).map toSeg)
+    (l c j : Nat) (hj : j < Tin.length) (hpos : adv startPos (Tin.take j) = ⟨l, c⟩) :
+    (∀ o', lookupCols (decode Min.mappings) l c = some o' →
+      ∃ idx mm', findInner st l c = some idx ∧ (st.lineData.getD (l - 1) {}).segs.getD idx default = toSeg mm' ∧ mm'.orig = some o')
+    ∧ (lookupCols (decode Min.mappings) l c = none →
+        ∀ idx, findInner st l c = some idx → ((st.lineData.getD (l - 1) {}).segs.getD idx default).src < 0) := by
+  have hin : MapInside Tin Min := fun x hx => (hsegok x hx).1
+  have hp : PosOK (streamSM Tin Min ⟨true, false⟩) := streamSM_posOK Tin Min true ha hl (fun _ => hin)
+  have hTL := streamSM_tl Tin Min true
+  have hsorted := chunkMs_sorted _ [] hp.1 hTL
+  have hpw := ((sortedFrom_iff _ _ _).1 hsorted).2
+  have hlk0 := streamSMFull_lookEq Tin Min ha hl hs hsegok j hj
+  rw [hpos] at hlk0
+  have hcm : lookupCols (chunkMs (streamSMFull Tin Min).evs) l c = lookupCols (decode Min.mappings) l c := hlk0
+  simp only [streamSM] at hrec hpw
+  have hL : 1 ≤ l := by
+    have e1 : startPos.line = 1 := rfl
+    have := adv_ge (Tin.take j) startPos
+    rw [hpos] at this
+    rcases this with g | g <;> simp only at g <;> omega
+  have hlen : st.lineData.length < l → ((chunkMs (streamSMFull Tin Min).evs).filter fun x => x.gl == l) = [] := by
+    intro hlt
+    have := hrec l hL
+    unfold segsAt at this
+    rw [List.getD_eq_getElem?_getD, List.getElem?_eq_none (by omega)] at this
+    simp only [Option.getD_none] at this
+    exact List.map_eq_nil_iff.1 this.symm
+  have hfind := findInner_lookup st (chunkMs (streamSMFull Tin Min).evs) hpw l c hL (hrec l hL) hlen
+  constructor
+  · intro o' ho'
+    cases hf : findInner st l c with
+    | none =>
+      rw [hf] at hfind
+      simp only at hfind
+      have : lookupCols (chunkMs (streamSMFull Tin Min).evs) l c = none := by unfold lookupCols; rw [hfind]; rfl
+      rw [← hcm, this] at ho'
+      cases ho'
+    | some idx =>
+      rw [hf] at hfind
+      obtain ⟨hidx, hsegeq, hlook⟩ := hfind
+      have hlk : lookupCols (chunkMs (streamSMFull Tin Min).evs) l c
+          = (((chunkMs (streamSMFull Tin Min).evs).filter fun x => x.gl == l).getD idx default).orig := by
+        unfold lookupCols; rw [hlook]; rfl
+      rw [← hcm, hlk] at ho'
+      exact ⟨idx, _, rfl, hsegeq, ho'⟩
+  · intro hnone idx hf
+    rw [hf] at hfind
+    obtain ⟨_, hsegeq, hlook⟩ := hfind
+    have hlk : lookupCols (chunkMs (streamSMFull Tin Min).evs) l c
+        = (((chunkMs (streamSMFull Tin Min).evs).filter fun x => x.gl == l).getD idx default).orig := by
+      unfold lookupCols; rw [hlook]; rfl
+    rw [← hcm, hlk] at hnone
+    have hdefeq : (st.lineData.getD (l - 1) {}).segs.getD idx default
+        = toSeg (((chunkMs (streamSMFull Tin Min).evs).filter fun x => x.gl == l).getD idx default) := hsegeq
+    rw [hdefeq]
+    simp only [toSeg, hnone]
+    omega
+
+/-! ### a stream of chunks, with the state at each chunk -/
+
+theorem combFold_chunks (cfg : CombCfg) : ∀ (evs : List Ev) (st : CombSt) (S N OS : List Text), KInv cfg st S N OS →
+    (∀ e ∈ evs, e.isChunk = true) → DeclOK OS.length st.nameIndexValueMapping.length evs →
+    ∀ t' mm, Ev.chunk t' mm ∈ combFold cfg st evs →
+      ∃ t m st' S0 N0, Ev.chunk t m ∈ evs ∧ KInv cfg st' S0 N0 OS ∧ st'.stat = st.stat ∧ st'.nameIndexValueMapping = st.nameIndexValueMapping
+        ∧ Ev.chunk t' mm ∈ (combOnChunk cfg st' t m).2
+        ∧ (S0 ++ annS (combOnChunk cfg st' t m).2) <+: (S ++ annS (combFold cfg st evs))
+        ∧ (N0 ++ annN (combOnChunk cfg st' t m).2) <+: (N ++ annN (combFold cfg st evs)) := by
+  intro evs
+  induction evs with
+  | nil => intro st S N OS _ _ _ t' mm h; simp [combFold] at h
+  | cons e es ih =>
+    intro st S N OS h hc hd t' mm hm
+    have hc' : ∀ e ∈ es, e.isChunk = true := fun x hx => hc x (List.mem_cons_of_mem _ hx)
+    cases e with
+    | chunk text m =>
+      simp only [combFold, combStep] at hm ⊢
+      obtain ⟨a1, a2, a3, _⟩ := combOnChunk_ok cfg st S N OS h text m (fun o ho k hk => (hd.1 o ho).2 k hk)
+      rcases List.mem_append.1 hm with hm | hm
+      · refine ⟨text, m, st, S, N, by simp, h, rfl, rfl, hm, ?_, ?_⟩
+        · rw [annS_append, ← List.append_assoc]; exact List.prefix_append _ _
+        · rw [annN_append, ← List.append_assoc]; exact List.prefix_append _ _
+      · obtain ⟨t, m', st', S0, N0, b1, b2, b3, b4, b5, b6, b7⟩ :=
+          ih (combOnChunk cfg st text m).1 _ _ OS a2 hc' (by rw [a3]; exact hd.2) t' mm hm
+        refine ⟨t, m', st', S0, N0, List.mem_cons_of_mem _ b1, b2, b3.trans (combOnChunk_stat cfg st text m), b4.trans a3, b5, ?_, ?_⟩
+        · rw [annS_append, ← List.append_assoc]; exact b6
+        · rw [annN_append, ← List.append_assoc]; exact b7
+    | source i s c => have := hc _ (List.mem_cons_self); simp [Ev.isChunk] at this
+    | name i n => have := hc _ (List.mem_cons_self); simp [Ev.isChunk] at this
+
+/-- the table invariant at the end of a run -/
+theorem combEnd_inv (cfg : CombCfg) (hI : MapIdxOK cfg.innerMap) : ∀ (evs : List Ev) (st : CombSt) (S N OS : List Text), KInv cfg st S N OS →
+    DeclOK OS.length st.nameIndexValueMapping.length evs →
+    KInv cfg (combEnd cfg st evs) (S ++ annS (combFold cfg st evs)) (N ++ annN (combFold cfg st evs)) (OS ++ annS evs)
+    ∧ (combEnd cfg st evs).nameIndexValueMapping = st.nameIndexValueMapping ++ annN evs := by
+  intro evs
+  induction evs with
+  | nil => intro st S N OS h _; simpa [combEnd, combFold, annS, annN] using h
+  | cons e es ih =>
+    intro st S N OS h hd
+    simp only [combEnd, combFold]
+    cases e with
+    | chunk text m =>
+      simp only [combStep]
+      obtain ⟨a1, a2, a3, _⟩ := combOnChunk_ok cfg st S N OS h text m (fun o ho k hk => (hd.1 o ho).2 k hk)
+      obtain ⟨i1, i2⟩ := ih _ _ _ OS a2 (by rw [a3]; exact hd.2)
+      simp only [annS_append, annN_append, annS, annN, ← List.append_assoc]
+      exact ⟨i1, by rw [i2, a3]⟩
+    | source i s c =>
+      obtain ⟨rfl, hd2⟩ := hd
+      simp only [combStep]
+      obtain ⟨a1, a2, a3, a4, a5⟩ := combOnSource_ok cfg hI st S N OS h s c
+      obtain ⟨i1, i2⟩ := ih _ _ N (OS ++ [s]) a4 (by rw [a5, List.length_append]; exact hd2)
+      simp only [annS_append, annN_append, annS, annN, a2, List.nil_append, ← List.append_assoc]
+      refine ⟨by simpa using i1, by rw [i2, a5]⟩
+    | name i n =>
+      obtain ⟨rfl, hd2⟩ := hd
+      simp only [combStep, List.nil_append]
+      obtain ⟨a1, a2⟩ := combOnName_ok cfg st S N OS h n
+      obtain ⟨i1, i2⟩ := ih _ S N OS a1 (by rw [a2, List.length_append]; exact hd2)
+      simp only [annS, annN]
+      exact ⟨i1, by rw [i2, a2]; simp⟩
+
+theorem declOK_chunk_mem : ∀ (evs : List Ev) (ns nn : Nat), DeclOK ns nn evs → (∀ e ∈ evs, e.isChunk = true) →
+    ∀ t m, Ev.chunk t m ∈ evs → ∀ o, m.orig = some o → o.src < ns ∧ ∀ k, o.name = some k → k < nn := by
+  intro evs
+  induction evs with
+  | nil => intro ns nn _ _ t m h; simp at h
+  | cons e es ih =>
+    intro ns nn hd hc t m hm
+    cases e with
+    | chunk t0 m0 =>
+      simp only [List.mem_cons, Ev.chunk.injEq] at hm
+      rcases hm with ⟨rfl, rfl⟩ | hm
+      · exact hd.1
+      · exact ih ns nn hd.2 (fun x hx => hc x (List.mem_cons_of_mem _ hx)) t m hm
+    | source i s c => have := hc _ (List.mem_cons_self); simp [Ev.isChunk] at this
+    | name i n => have := hc _ (List.mem_cons_self); simp [Ev.isChunk] at this
+
+theorem annS_mem (evs : List Ev) (j : Nat) (x : Text) (h : (annS evs)[j]? = some x) : ∃ i c, Ev.source i x c ∈ evs := by
+  induction evs generalizing j with
+  | nil => simp [annS] at h
+  | cons e es ih =>
+    cases e with
+    | chunk t m => simp only [annS] at h; obtain ⟨i, c, hm⟩ := ih j h; exact ⟨i, c, List.mem_cons_of_mem _ hm⟩
+    | name i n => simp only [annS] at h; obtain ⟨i', c, hm⟩ := ih j h; exact ⟨i', c, List.mem_cons_of_mem _ hm⟩
+    | source i s c =>
+      simp only [annS] at h
+      cases j with
+      | zero => simp only [List.getElem?_cons_zero, Option.some.injEq] at h; subst h; exact ⟨i, c, List.mem_cons_self⟩
+      | succ j => simp only [List.getElem?_cons_succ] at h; obtain ⟨i', c', hm⟩ := ih j h; exact ⟨i', c', List.mem_cons_of_mem _ hm⟩
+
+/-- a name announced once stands at one place of the announcement list -/
+theorem onceInner_unique (n : Text) : ∀ (evs : List Ev), OnceInner n evs → ∀ (i j : Nat), (annS evs)[i]? = some n → (annS evs)[j]? = some n → i = j := by
+  intro evs
+  induction evs with
+  | nil => intro h; exact absurd h (by simp [OnceInner])
+  | cons e es ih =>
+    intro h i j hi hj
+    cases e with
+    | chunk t m => exact absurd h (by simp [OnceInner])
+    | name i0 n0 => simp only [OnceInner] at h; simp only [annS] at hi hj; exact ih h i j hi hj
+    | source i0 s c =>
+      simp only [OnceInner] at h
+      simp only [annS] at hi hj
+      rcases h with ⟨hs, hrest⟩ | ⟨hs, hrest⟩
+      · have hno : ∀ q : Nat, (annS es)[q]? ≠ some n := by
+          intro q hq
+          obtain ⟨i', c', hm⟩ := annS_mem es q n hq
+          exact hrest i' n c' hm rfl
+        cases i with
+        | zero =>
+          cases j with
+          | zero => rfl
+          | succ j => simp only [List.getElem?_cons_succ] at hj; exact absurd hj (hno j)
+        | succ i => simp only [List.getElem?_cons_succ] at hi; exact absurd hi (hno i)
+      · cases i with
+        | zero => simp only [List.getElem?_cons_zero, Option.some.injEq] at hi; exact absurd hi hs
+        | succ i =>
+          cases j with
+          | zero => simp only [List.getElem?_cons_zero, Option.some.injEq] at hj; exact absurd hj hs
+          | succ j =>
+            simp only [List.getElem?_cons_succ] at hi hj
+            rw [ih hrest i j hi hj]
+
+theorem annS_chunks (evs : List Ev) (h : ∀ e ∈ evs, e.isChunk = true) : annS evs = [] := by
+  induction evs with
+  | nil => rfl
+  | cons e es ih =>
+    cases e with
+    | chunk t m => simp only [annS]; exact ih (fun x hx => h x (List.mem_cons_of_mem _ hx))
+    | source i s c => have := h _ (List.mem_cons_self); simp [Ev.isChunk] at this
+    | name i n => have := h _ (List.mem_cons_self); simp [Ev.isChunk] at this
+
+/-! ### the whole stream -/
+
+/-- **C09, composed chunks, whole stream (columns = true).**  `Tin` is the text the inner map is streamed over: the supplied original
+source, else the content the outer map lists for the inner source.  Every chunk of the combined stream comes from one chunk of
+the outer map's stream (same text, same generated position).  When that outer chunk points into the inner source at the position of
+a character of `Tin`:
+* if the inner map assigns `o'` to that position, a mapped delivered chunk names — through the combined stream's announcements — the
+  file the *inner map's own stream* announces under `o'.src`, at `o'`'s line and at `o'`'s column or that column plus an offset
+  smaller than the outer column;
+* if the inner map assigns nothing there, the delivered chunk is unmapped when removal is requested, and otherwise names the inner
+  source itself at the outer chunk's own line and column. -/
+theorem streamCombined_compose (t : Text) (sm : SMap) (n : Text) (os : Option Text) (im : SMap) (rm : Bool) (Tin : Text)
+    (h1 : MapIdxOK sm) (h2 : MapIdxOK im) (honce : OnceInner n (smSourceEvs sm ++ smNameEvs sm))
+    (hTin : ∀ k c, Ev.source k n c ∈ smSourceEvs sm ++ smNameEvs sm → (os.or c).getD [] = Tin)
+    (ha : IsAscii Tin) (hl : Tin.length ≤ USIZE_MAX) (hs : sortedFrom 1 0 (decode im.mappings))
+    (hseg : ∀ x ∈ decode im.mappings, SegOK (splitLines Tin) (adv startPos Tin).line (adv startPos Tin).col x) :
+    ∀ t' mm, Ev.chunk t' mm ∈ (streamCombined t sm n os im rm ⟨true, false⟩).evs →
+      ∃ m, Ev.chunk t' m ∈ (streamSM t sm ⟨true, false⟩).evs ∧ mm.gl = m.gl ∧ mm.gc = m.gc ∧
+        ∀ a, m.orig = some a → (annS (streamSM t sm ⟨true, false⟩).evs)[a.src]? = some n →
+          ∀ j, j < Tin.length → adv startPos (Tin.take j) = ⟨a.line, a.col⟩ →
+            (∀ o', lookupCols (decode im.mappings) a.line a.col = some o' → ∀ y, mm.orig = some y →
+                (annS (streamCombined t sm n os im rm ⟨true, false⟩).evs)[y.src]? = (annS (streamSM Tin im ⟨true, false⟩).evs)[o'.src]?
+                ∧ o'.src < (annS (streamSM Tin im ⟨true, false⟩).evs).length
+                ∧ y.line = o'.line ∧ (y.col = o'.col ∨ ∃ g, g < a.col ∧ y.col = o'.col + (a.col - g)))
+            ∧ (lookupCols (decode im.mappings) a.line a.col = none →
+                (rm = true → mm.orig = none)
+                ∧ ∀ y, mm.orig = some y → (annS (streamCombined t sm n os im rm ⟨true, false⟩).evs)[y.src]? = some n ∧ y.line = a.line ∧ y.col = a.col) := by
+  intro t' mm hmem
+  simp only [streamCombined] at hmem ⊢
+  rcases streamSM_shape t sm false with ⟨e0, _⟩ | ⟨_, C, eN, cN⟩
+  · rw [e0] at hmem; simp [combFold] at hmem
+  · have hP : ∀ e ∈ smSourceEvs sm ++ smNameEvs sm, e.isChunk = false := by
+      intro e he
+      rcases List.mem_append.1 he with h | h
+      · exact smSourceEvs_nochunk sm e h
+      · exact smNameEvs_nochunk sm e h
+    have hdecl := streamSM_declOK t sm ⟨true, false⟩ h1
+    rw [eN] at hmem hdecl ⊢
+    generalize hcfg : ({ genText := t, innerName := n, innerMap := im, remove := rm, columns := true } : CombCfg) = cfg at hmem ⊢
+    have hcn : cfg.innerName = n := by rw [← hcfg]
+    have hci : cfg.innerMap = im := by rw [← hcfg]
+    have hcc : cfg.columns = true := by rw [← hcfg]
+    have hcr : cfg.remove = rm := by rw [← hcfg]
+    generalize hPdef : smSourceEvs sm ++ smNameEvs sm = P at *
+    obtain ⟨dP, dC⟩ := (declOK_append P C 0 0).1 hdecl
+    -- the state after the announcements
+    obtain ⟨k1, k2⟩ := combEnd_inv cfg (by rw [hci]; exact h2) P { innerSource := os } [] [] [] (kinv_init cfg os) dP
+    simp only [List.nil_append] at k1 k2
+    obtain ⟨k, c, hkmem, hrec⟩ := combEnd_rec cfg (by rw [hci]; exact h2) P { innerSource := os } ⟨rfl, rfl, rfl⟩ hP (by rw [hcn]; exact honce)
+    have hT : (os.or c).getD [] = Tin := hTin k c (by rw [hcn] at hkmem; exact hkmem)
+    simp only at hrec
+    rw [hT, hci, hcc] at hrec
+    have hin : MapInside Tin im := fun x hx => (hseg x hx).1
+    have hpI : PosOK (streamSM Tin im ⟨true, false⟩) := streamSM_posOK Tin im true ha hl (fun _ => hin)
+    have hsI := chunkMs_sorted _ [] hpI.1 (streamSM_tl Tin im true)
+    have hgl : ∀ m ∈ chunkMs (streamSM Tin im ⟨true, false⟩).evs, 1 ≤ m.gl := by
+      intro m hm
+      have := sortedFrom_all _ _ _ hsI m hm
+      have e1 : (adv startPos ([] : Text)).line = 1 := rfl
+      omega
+    have hR := hrec hgl
+    -- the chunk
+    rw [combFold_append] at hmem
+    rcases List.mem_append.1 hmem with hmem | hmem
+    · exfalso
+      have := mem_keys _ t' mm hmem
+      rw [combFold_keys] at this
+      unfold evsKeys at this
+      obtain ⟨e, he, hk⟩ := List.mem_filterMap.1 this
+      have := hP e he
+      cases e with
+      | chunk tt m0 => simp [Ev.isChunk] at this
+      | source i s c => simp [Ev.key] at hk
+      | name i nm => simp [Ev.key] at hk
+    · generalize hst1 : combEnd cfg { innerSource := os } P = st1 at *
+      have hdC : DeclOK (annS P).length st1.nameIndexValueMapping.length C := by
+        rw [k2]
+        simpa [annS_length, annN_length] using dC
+      obtain ⟨tt, m, st', S0, N0, b1, b2, b3, b4, b5, b6, b7⟩ :=
+        combFold_chunks cfg C st1 _ _ _ k1 cN hdC t' mm hmem
+      have hR' := innerRec_of_stat st1 st' k _ b3 hR
+      have hmdecl := declOK_chunk_mem C _ _ hdC cN tt m b1
+      obtain ⟨sem1, sem2⟩ := combOnChunk_sem cfg st' S0 N0 (annS P) b2 tt m (fun o ho kk hk => by rw [b4]; exact (hmdecl o ho).2 kk hk)
+      -- the delivered chunk has the outer chunk's text and position
+      have hk := mem_keys _ t' mm b5
+      rw [combOnChunk_keys] at hk
+      simp only [List.mem_singleton, Prod.mk.injEq] at hk
+      obtain ⟨rfl, hgl', hgc'⟩ := hk
+      refine ⟨m, List.mem_append_right _ b1, hgl', hgc', ?_⟩
+      intro a hmo hOS j hj hpos
+      rw [annS_append, annS_chunks C cN, List.append_nil] at hOS
+      -- the outer chunk points into the inner source
+      have hisi : st'.innerSourceIndex = (k : Int) := hR'.isi
+      have hkn : (annS P)[k]? = some n := by
+        rcases b2.isi with h0 | ⟨_, h0⟩
+        · rw [hisi] at h0; omega
+        · rw [hisi, hcn] at h0; simpa using h0
+      have hak : a.src = k := onceInner_unique n P honce a.src k hOS hkn
+      have hsi : m.si = st'.innerSourceIndex := by rw [hisi]; simp [Mapping.si, hmo, hak]
+      have hol : m.ol = (a.line : Int) := by simp [Mapping.ol, hmo]
+      have hoc : m.oc = (a.col : Int) := by simp [Mapping.oc, hmo]
+      have hsi' : m.si = (a.src : Int) := by simp [Mapping.si, hmo]
+      obtain ⟨F1, F2⟩ := findInner_innerMap st' Tin im ha hl hs hseg hR'.segs a.line a.col j hj hpos
+      -- the announcements of the whole combined stream
+      have hfin : annS (combFold cfg { innerSource := os } (P ++ C)) = annS (combFold cfg { innerSource := os } P) ++ annS (combFold cfg st1 C) := by
+        rw [combFold_append, annS_append, hst1]
+      rw [hfin]
+      have hol2 : m.ol.toNat - 1 = a.line - 1 := by rw [hol]; simp
+      constructor
+      · intro o' ho' y hy
+        obtain ⟨idx, mm', hfi, hsegeq, hmm'⟩ := F1 o' ho'
+        have hfi' : findInner st' m.ol m.oc = some idx := by rw [hol, hoc]; exact hfi
+        have hsrc : ((st'.lineData.getD (m.ol.toNat - 1) {}).segs.getD idx default) = toSeg mm' := by rw [hol2]; exact hsegeq
+        have hge : 0 ≤ ((st'.lineData.getD (m.ol.toNat - 1) {}).segs.getD idx default).src := by
+          rw [hsrc]; simp only [toSeg, hmm']; omega
+        have hf := sem1 idx hsi hfi' hge
+        rw [hsrc] at hf
+        obtain ⟨_, _, _, q⟩ := hf _ mm b5
+        obtain ⟨q1, q2, q3, q4, _⟩ := q y hy
+        simp only [toSeg, hmm', Int.toNat_natCast] at q1 q2 q3 q4
+        rw [hR'.srcs] at q1
+        have hlen : o'.src < (annS (streamSM Tin im ⟨true, false⟩).evs).length := by
+          have := hR'.srcs
+          have hl2 : (st'.innerSourceIndexValueMapping.map (·.1)).length = st'.innerSourceIndexValueMapping.length := by simp
+          rw [this] at hl2
+          omega
+        refine ⟨?_, hlen, q3, ?_⟩
+        · rw [List.getElem?_eq_getElem hlen] at q1 ⊢
+          exact prefix_get _ _ b6 _ _ q1
+        · rw [hoc] at q4
+          rcases q4 with q4 | ⟨q4, q5⟩
+          · exact Or.inl q4
+          · exact Or.inr ⟨mm'.gc, by omega, by omega⟩
+      · intro hnone
+        have hno : m.si = st'.innerSourceIndex → ∀ idx, findInner st' m.ol m.oc = some idx →
+            ((st'.lineData.getD (m.ol.toNat - 1) {}).segs.getD idx default).src < 0 := by
+          intro _ idx hf
+          rw [hol, hoc] at hf
+          rw [hol2]
+          exact F2 hnone idx hf
+        obtain ⟨hpass, hrem⟩ := sem2 hno
+        refine ⟨fun hr => hrem hsi (by rw [hcr]; exact hr) _ mm b5, fun y hy => ?_⟩
+        obtain ⟨_, _, _, q⟩ := hpass _ mm b5
+        obtain ⟨_, q2, _, q4, q5, _⟩ := q y hy
+        rw [hsi'] at q2
+        simp only [Int.toNat_natCast] at q2
+        rw [hOS] at q2
+        refine ⟨prefix_get _ _ b6 _ _ q2, ?_, ?_⟩
+        · rw [hol] at q4; simpa using q4
+        · rw [hoc] at q5; simpa using q5
 
 end Rs
